@@ -430,6 +430,24 @@ func extractGroupBalancer(repo, root string) error {
 		return err
 	}
 	fmt.Fprintf(&sb, "/-- makeSyncGroupRequestV0: the map handed to groupAssignment{Topics: …} is made by the first statement of the body of the loop over the assignments parameter (a fresh map per member) and is defined nowhere else -/\ndef topics32FreshPerMember : Bool := %v\n", freshPerMember(funcNamed(cgf, "ConsumerGroup", "makeSyncGroupRequestV0")))
+	// conn.go: the functions that turn a Metadata answer into partitions keep the other topics when one is unknown
+	cnf, err := parser.ParseFile(fset, filepath.Join(repo, "conn.go"), nil, 0)
+	if err != nil {
+		return err
+	}
+	var keep []string
+	nReaders := 0
+	for _, d := range cnf.Decls {
+		fd, ok := d.(*ast.FuncDecl)
+		if !ok || fd.Body == nil || fd.Recv == nil || !turnsTopicMetadataIntoPartitions(fd) {
+			continue
+		}
+		nReaders++
+		if unknownTopicContinues(fd) {
+			keep = append(keep, "v")
+		}
+	}
+	fmt.Fprintf(&sb, "/-- conn.go: number of methods of the shape `for _, t := range topicMetadata { if <topic error concerns the connection> { … return nil, err }; for _, p := range t.Partitions { partitions = append(…) } }`, and how many of them start the error branch with `if <…> { err = …; continue }` (an unknown topic among several does not hide the others) -/\ndef topicMetadataReaders : Nat × Nat := (%d, %d)\n", nReaders, len(keep))
 	sb.WriteString("end KV.Gen.GroupBalancer\n")
 	out := filepath.Join(root, "lean", "KafkaVerif", "Gen", "GroupBalancerSel.lean")
 	return os.WriteFile(out, []byte(sb.String()), 0o644)
@@ -770,4 +788,72 @@ func freshPerMember(fd *ast.FuncDecl) bool {
 		return true
 	})
 	return defs == 1 && inLoopFirst
+}
+
+// turnsTopicMetadataIntoPartitions: the method's body is one range loop over a parameter followed by a return; the loop
+// body is an if (whose last statement returns two values) followed by a range loop that appends.
+func turnsTopicMetadataIntoPartitions(fd *ast.FuncDecl) bool {
+	if len(fd.Body.List) != 2 {
+		return false
+	}
+	rs, ok := fd.Body.List[0].(*ast.RangeStmt)
+	if _, isRet := fd.Body.List[1].(*ast.ReturnStmt); !ok || !isRet || len(rs.Body.List) != 2 {
+		return false
+	}
+	isParam := false
+	for _, o := range paramObjs(fd) {
+		if o == objOf(rs.X) && o != nil {
+			isParam = true
+		}
+	}
+	ifs, ok := rs.Body.List[0].(*ast.IfStmt)
+	inner, ok2 := rs.Body.List[1].(*ast.RangeStmt)
+	if !isParam || !ok || !ok2 || len(ifs.Body.List) == 0 {
+		return false
+	}
+	ret, ok := ifs.Body.List[len(ifs.Body.List)-1].(*ast.ReturnStmt)
+	if !ok || len(ret.Results) != 2 {
+		return false
+	}
+	if sel, ok := inner.X.(*ast.SelectorExpr); !ok || objOf(sel.X) != objOf(rs.Value) || objOf(rs.Value) == nil {
+		return false
+	}
+	appends := false
+	ast.Inspect(inner.Body, func(n ast.Node) bool {
+		if c, ok := n.(*ast.CallExpr); ok && calls(c, "append") {
+			appends = true
+		}
+		return true
+	})
+	return appends
+}
+
+// unknownTopicContinues: the error branch starts with `if … { <named result> = …; continue }`.
+func unknownTopicContinues(fd *ast.FuncDecl) bool {
+	rs := fd.Body.List[0].(*ast.RangeStmt)
+	ifs := rs.Body.List[0].(*ast.IfStmt)
+	if len(ifs.Body.List) < 2 {
+		return false
+	}
+	in, ok := ifs.Body.List[0].(*ast.IfStmt)
+	if !ok || in.Else != nil || len(in.Body.List) != 2 {
+		return false
+	}
+	as, ok1 := in.Body.List[0].(*ast.AssignStmt)
+	br, ok2 := in.Body.List[1].(*ast.BranchStmt)
+	if !ok1 || !ok2 || br.Tok != token.CONTINUE || as.Tok != token.ASSIGN || len(as.Lhs) != 1 {
+		return false
+	}
+	// the assigned variable is a named result of the function
+	if fd.Type.Results == nil {
+		return false
+	}
+	for _, f := range fd.Type.Results.List {
+		for _, n := range f.Names {
+			if n.Obj != nil && n.Obj == objOf(as.Lhs[0]) {
+				return true
+			}
+		}
+	}
+	return false
 }
